@@ -26,6 +26,11 @@ const prop = "C22"
 
 var dirs = []string{"cr/state"}
 
+// snapshot structs (their fields are the state a rollback has to restore) and the entry points from
+// which block processing starts
+var snapStructs = []string{"KeyFrame", "StateKeyFrame", "ProposalKeyFrame", "Candidate", "CRMember", "ProposalState", "DepositInfo"}
+var roots = []string{"ProcessBlock"}
+
 type write struct{ loc, kind, rhs string }
 
 type site struct {
@@ -242,6 +247,220 @@ func orders() {
 	fmt.Printf("def rollbackOrder : List Txt := %s\n", ncs(ro))
 }
 
+// outside prints, as facts, the assignments to fields of the snapshot structs that are performed
+// OUTSIDE every History.Append closure by functions reachable from the block-processing entry points
+// through calls that are themselves outside Append closures (name-based call resolution inside the
+// package: an over-approximation).  Writes whose root is a local built from a composite literal in the
+// same function (a fresh object) are skipped.
+func outside() {
+	type fn struct {
+		f  *ex.File
+		fd *ast.FuncDecl
+	}
+	byName := map[string][]fn{}
+	fields := map[string]bool{}
+	var files []*ex.File
+	for _, d := range dirs {
+		files = append(files, ex.ParseDir(d)...)
+	}
+	for _, f := range files {
+		for _, d := range f.AST.Decls {
+			switch x := d.(type) {
+			case *ast.FuncDecl:
+				if x.Body != nil {
+					byName[x.Name.Name] = append(byName[x.Name.Name], fn{f, x})
+				}
+			case *ast.GenDecl:
+				for _, sp := range x.Specs {
+					ts, ok := sp.(*ast.TypeSpec)
+					if !ok {
+						continue
+					}
+					st, ok := ts.Type.(*ast.StructType)
+					if !ok {
+						continue
+					}
+					for _, want := range snapStructs {
+						if ts.Name.Name == want {
+							for _, fl := range st.Fields.List {
+								for _, n := range fl.Names {
+									fields[n.Name] = true
+								}
+							}
+						}
+					}
+				}
+			}
+		}
+	}
+	// positions covered by Append closures, per function
+	inClosure := func(f *ex.File, fd *ast.FuncDecl) func(token.Pos) bool {
+		var spans [][2]token.Pos
+		ast.Inspect(fd.Body, func(n ast.Node) bool {
+			if c, ok := n.(*ast.CallExpr); ok {
+				if _, ok := isHistoryAppend(f, c); ok {
+					for _, a := range c.Args[1:] {
+						spans = append(spans, [2]token.Pos{a.Pos(), a.End()})
+					}
+				}
+			}
+			return true
+		})
+		return func(p token.Pos) bool {
+			for _, s := range spans {
+				if p >= s[0] && p < s[1] {
+					return true
+				}
+			}
+			return false
+		}
+	}
+	visited := map[string]bool{}
+	var order []string
+	var queue []string
+	for _, r := range roots {
+		if !visited[r] {
+			visited[r] = true
+			queue = append(queue, r)
+		}
+	}
+	type hit struct{ fn, field, where, stmt string }
+	var hits []hit
+	for len(queue) > 0 {
+		name := queue[0]
+		queue = queue[1:]
+		order = append(order, name)
+		for _, x := range byName[name] {
+			f, fd := x.f, x.fd
+			inside := inClosure(f, fd)
+			full := fd.Name.Name
+			if r := ex.RecvName(fd); r != "" {
+				full = r + "." + full
+			}
+			// locals built from composite literals
+			fresh := map[string]bool{}
+			ast.Inspect(fd.Body, func(n ast.Node) bool {
+				if a, ok := n.(*ast.AssignStmt); ok && a.Tok == token.DEFINE && len(a.Lhs) == len(a.Rhs) {
+					for i, l := range a.Lhs {
+						id, ok := l.(*ast.Ident)
+						if !ok {
+							continue
+						}
+						r := a.Rhs[i]
+						if u, ok := r.(*ast.UnaryExpr); ok {
+							r = u.X
+						}
+						if _, ok := r.(*ast.CompositeLit); ok {
+							fresh[id.Name] = true
+						}
+					}
+				}
+				return true
+			})
+			rootOf := func(e ast.Expr) string {
+				for {
+					switch y := e.(type) {
+					case *ast.SelectorExpr:
+						e = y.X
+					case *ast.IndexExpr:
+						e = y.X
+					case *ast.StarExpr:
+						e = y.X
+					case *ast.ParenExpr:
+						e = y.X
+					case *ast.Ident:
+						return y.Name
+					default:
+						return ""
+					}
+				}
+			}
+			fieldName := func(e ast.Expr) string {
+				for {
+					switch y := e.(type) {
+					case *ast.IndexExpr:
+						e = y.X
+					case *ast.ParenExpr:
+						e = y.X
+					case *ast.StarExpr:
+						e = y.X
+					case *ast.SelectorExpr:
+						return y.Sel.Name
+					default:
+						return ""
+					}
+				}
+			}
+			note := func(lhs ast.Expr, st ast.Node) {
+				if inside(st.Pos()) {
+					return
+				}
+				fnm := fieldName(lhs)
+				if fnm == "" || !fields[fnm] || fresh[rootOf(lhs)] {
+					return
+				}
+				hits = append(hits, hit{full, fnm, fmt.Sprintf("%s:%d", f.Path, f.Line(st)), f.Src(st)})
+			}
+			ast.Inspect(fd.Body, func(n ast.Node) bool {
+				switch y := n.(type) {
+				case *ast.AssignStmt:
+					if y.Tok != token.DEFINE {
+						for _, l := range y.Lhs {
+							note(l, y)
+						}
+					}
+				case *ast.IncDecStmt:
+					note(y.X, y)
+				case *ast.CallExpr:
+					if id, ok := y.Fun.(*ast.Ident); ok && id.Name == "delete" && len(y.Args) == 2 {
+						note(y.Args[0], y)
+					}
+					if inside(y.Pos()) {
+						return true // calls made by closures run under the history: not followed
+					}
+					callee := ""
+					switch c := y.Fun.(type) {
+					case *ast.Ident:
+						callee = c.Name
+					case *ast.SelectorExpr:
+						callee = c.Sel.Name
+					}
+					if callee == "Deserialize" || callee == "Serialize" || callee == "DeserializeUnsigned" || callee == "SerializeUnsigned" {
+						callee = "" // (de)serialisers of payloads share their name with the key frames' own: not followed
+					}
+					if callee != "" && len(byName[callee]) > 0 && !visited[callee] {
+						visited[callee] = true
+						queue = append(queue, callee)
+					}
+				}
+				return true
+			})
+		}
+	}
+	sort.Slice(hits, func(i, j int) bool {
+		if hits[i].fn != hits[j].fn {
+			return hits[i].fn < hits[j].fn
+		}
+		return hits[i].field < hits[j].field
+	})
+	var items []string
+	seen := map[string]bool{}
+	fmt.Printf("\n-- writes to snapshot fields outside Append closures, in code reachable from %s (%d functions walked)\n", strings.Join(roots, ", "), len(order))
+	for _, h := range hits {
+		st := h.stmt
+		if len(st) > 110 {
+			st = st[:110] + "…"
+		}
+		fmt.Printf("--   %s  %s  .%s   %s\n", h.where, h.fn, h.field, st)
+		k := h.fn + "|" + h.field
+		if !seen[k] {
+			seen[k] = true
+			items = append(items, fmt.Sprintf("(%s, %s)", codes(h.fn), codes(h.field)))
+		}
+	}
+	fmt.Printf("def outsideWrites : List (Txt × Txt) := [%s]\n", strings.Join(items, ",\n  "))
+}
+
 func main() {
 	ex.Header(prop, "ElaVerif.Model.Sites")
 	var sites []site
@@ -326,10 +545,11 @@ func main() {
 		for _, c := range s.caps {
 			caps = append(caps, codes(c[0]))
 		}
-		fmt.Printf("def n%d : NSite := ⟨%d, %d, %v, %s, %s, %s, %s, [%s]⟩\n", i, i, s.sig, s.lit, nw(s.doW), nw(s.unW), ncs(s.doC), ncs(s.unC), strings.Join(caps, ", "))
+		fmt.Printf("def n%d : NSite := ⟨%d, %d, %s, %v, %s, %s, %s, %s, [%s]⟩\n", i, i, s.sig, codes(s.recv), s.lit, nw(s.doW), nw(s.unW), ncs(s.doC), ncs(s.unC), strings.Join(caps, ", "))
 		nn = append(nn, fmt.Sprintf("n%d", i))
 	}
 	fmt.Printf("\ndef nsites : List NSite := [%s]\n", strings.Join(nn, ", "))
+	outside()
 	orders()
 	ex.Footer(prop)
 }
